@@ -1,0 +1,16 @@
+//go:build verif
+
+package auth
+
+// Contracts for request authentication (property C17).
+// Comment-only file: it is compiled only with -tags verif and contains no code.
+
+// hasUser(ctx): the context carries a user id under this package's private key (what CtxWithUser stores).
+//@ spec func hasUser(ctx context.Context) bool = typeof(ctx.Value(identityCtxKey)) == type[entity.Id]
+
+//@ func UserFromCtx
+//@   props C17
+//@   requires ctx != nil
+//@   modifies nothing
+//@   ensures [no-user] !hasUser(ctx) ==> err == ErrNotAuthenticated && result == nil
+//@   ensures [user]    err == nil ==> hasUser(ctx)
